@@ -672,6 +672,9 @@ def position_in_selection_is_not_the_frame(ctx, rule='DEC/position-in-selection-
       uses = []
       for x in ast.walk(ast.Module(body=lp.body, type_ignores=[])):
         if isinstance(x, ast.Subscript) and any(isinstance(y, ast.Name) and y.id == k for y in ast.walk(x.slice)) and norm_text(x.value) != norm_text(sel.slice):
+          base = U.expand_locals(fn, x.value, at=lp) if isinstance(x.value, ast.Name) else x.value
+          if any(isinstance(b_, ast.Subscript) and norm_text(b_.slice) == norm_text(sel.slice) for b_ in ast.walk(base)):
+            continue      # an array cut down by the same selection: its rows are numbered like the enumerated ones
           uses.append(x)
         elif isinstance(x, ast.BinOp) and any(isinstance(y, ast.Name) and y.id == k for y in (x.left, x.right)):
           uses.append(x)
